@@ -699,14 +699,14 @@ where
     }
 
     pub(crate) async fn finish_inner(&mut self) -> LdapResult {
-        if self.state != StreamState::Done {
-            let last_id = self.ldap.last_id;
-            if let Err(e) = self.ldap.id_scrub_tx.send(last_id) {
-                warn!(
-                    "error sending scrub message from SearchStream::finish() for ID {}: {}",
-                    last_id, e
-                );
-            }
+        // The driver drops the routing entry of a search on SearchResultDone, but the
+        // message ID is only ever released by a scrub, so send one in every state.
+        let last_id = self.ldap.last_id;
+        if let Err(e) = self.ldap.id_scrub_tx.send(last_id) {
+            warn!(
+                "error sending scrub message from SearchStream::finish() for ID {}: {}",
+                last_id, e
+            );
         }
         self.state = StreamState::Closed;
         self.rx = None;
